@@ -5,7 +5,7 @@ from lib import core, yee_coq as Y
 PID = "C03"
 PROPS_FILE = "props/C03.v"
 IMPL = "scene_impl.py"
-COQ_HEADER = Y.HEADER
+COQ_HEADER = Y.HEADER + "From FV Require Import proofs.Yee_pml_sweep.\n"
 SHARD = 1
 RULE = ("placed scenes with CPML slabs (thickness 2-3) on random face subsets mixed with periodic/PEC/PMC faces, plane/dipole sources with "
         "switches, random interior initial fields: T forward steps with record_boundaries (lossless recorder) then T backward steps with "
@@ -14,13 +14,13 @@ RULE = ("placed scenes with CPML slabs (thickness 2-3) on random face subsets mi
 ASSUMPTIONS = ["recorder with no compression modules = identity (C30 covers the pipelines)", "source injections are oracle arrays",
                "CPML coefficient profiles a,b,1/kappa are oracle data from the placed layer objects (C12 covers their formulas)"]
 TRUSTED = ["correspondence harness; tolerance 1e-9*max|field| (CPML coefficients are generic floats)"]
-LEVEL_TEXT = ("PARTIAL. Coq theorems: frame facts of the reverse sweep (restore writes exactly the interface rows, reset zeroes exactly the layer "
-              "cells, interface rows lie in their layer, no layers => plain backward step whose exact inversion is theorem C02). The sweep invariant "
-              "itself (interior agreement at every step) is checked by model-vs-implementation correspondence of forward-with-CPML and "
-              "backward-with-restore/reset, and measured directly on the implementation.")
-LEVEL_NOTE = ("The all-steps interior-reconstruction statement is not yet a Coq theorem; it is decided per run by differential correspondence with the "
-              "executable CPML model and by the implementation predicate on bounded scenes (<= 7x6x9 cells, <= 4 steps).")
-TECHNIQUE = "Coq model of CPML + interface recording executed by vm_compute against forward()/backward(); frame lemmas in Coq"
+LEVEL_TEXT = ("Theorem (any grid, materials with 1+-f <> 0, wall masks, sources, any list of CPML layers with kappa = 1 and a = 0 on the interface row, "
+              "geometry_ok): the reverse sweep with interface restoration and field reset reproduces the forward E and H at every earlier step on every "
+              "cell outside all layers, for every T and every j <= T; the decidable geometry hypothesis is evaluated (geometry_okb, proved sound) on "
+              "every scene the correspondence runs. Tie: per-step correspondence of forward-with-CPML (fields and psi) and backward-with-restore/reset.")
+LEVEL_NOTE = ("geometry_ok is proved for concrete scenes by computation, not yet for all slab configurations in general; the recorder is the identity "
+              "pipeline (compression is C30); 9-component tensors are outside the model.")
+TECHNIQUE = "Coq proof (cell-level CPML loop lemmas, stencil locality, invariant over the reverse sweep) + vm_compute correspondence of CPML forward/backward"
 FACES = ("min_x", "max_x", "min_y", "max_y", "min_z", "max_z")
 
 
@@ -63,7 +63,9 @@ def coq_expr(case, out):
         return "false"
     inj = Y.inj_term(case["shape"], out["injE"], out["injH"])
     sc = Y.scene_term(case, out, inj=inj, pmls=Y.pml_terms(out))
-    return Y.pml_steps_expr(case["shape"], sc, out, case["steps"], out["back"], scale=max(Y.maxabs(out), 1.0))
+    wrap = " ".join("true" if case["bt"][f"min_{ax}"] in ("periodic", "bloch") else "false" for ax in "xyz")
+    geo = f"(geometry_okb K {sc} {wrap})"
+    return "(" + geo + " && " + Y.pml_steps_expr(case["shape"], sc, out, case["steps"], out["back"], scale=max(Y.maxabs(out), 1.0)) + ")%bool"
 
 
 def interior_mask(case, out):
